@@ -53,6 +53,14 @@ where
         (buffer.len(), *bits_read)
     }
 
+    /// Verification hook: physical layout of the retained ring buffer, `(capacity, length of the
+    /// first contiguous slice)`. Not part of the reader's logical state; lets a state-space search
+    /// tell apart histories that leave the same bytes buffered in different physical positions.
+    #[cfg(feature = "verif")]
+    pub fn verif_layout(&self) -> (usize, usize) {
+        (self.buffer.capacity(), self.buffer.as_slices().0.len())
+    }
+
     /// Fill the internal read buffer with a given number of bytes.
     ///
     /// This function will yield all I/O errors wrapped inside of the
